@@ -972,11 +972,28 @@ func (w *World) lenFromDef(v ssa.Value, lib libFacts, fn *ssa.Function, site ssa
 				}
 			}
 		}
-		if x.High != nil && x.Low != nil {
+		if x.High != nil {
 			h, ok1 := constInt(x.High)
-			l, ok2 := constInt(x.Low)
+			l, ok2 := int64(0), true
+			if x.Low != nil {
+				l, ok2 = constInt(x.Low)
+			}
 			if ok1 && ok2 {
 				return h - l, h - l, fmt.Sprintf("x[%d:%d]", l, h)
+			}
+		} else {
+			l, ok2 := int64(0), true
+			if x.Low != nil {
+				l, ok2 = constInt(x.Low)
+			}
+			if ok2 {
+				blo, bhi, bwhy := w.lenFromDef(x.X, lib, fn, site)
+				if blo >= l && bwhy != "" {
+					if bhi < inf {
+						bhi -= l
+					}
+					return blo - l, bhi, fmt.Sprintf("x[%d:] of %s", l, bwhy)
+				}
 			}
 		}
 	case *ssa.Call:
